@@ -14,6 +14,9 @@ def run(check):
     check.guarded("ORDER", X.rule_order)
     check.guarded("FRESH-TEMP", X.rule_fresh_temp)
     check.guarded("KEPT-IN-PLACE", X.rule_kept_in_place)
+    # an operand that is "kept" is read twice (in place and as hook argument): only identifiers and literals
+    # give the same value both times - the hook must be told the value the operation used
+    check.guarded("IDENT-MODE", X.rule_ident_mode)
     from . import c06 as _c06
     check.guarded("DECLARE-SCOPE", _c06.rule_declare_scope)
     # the operand handler leaves a nested `+` in place without reporting it, on the assumption that the
